@@ -43,7 +43,7 @@ def gen(st, tier):
         n = w.choice([2, 2, 3])
         k = G.session_key_spec(w)
         pre, ch = conc.sched_spec(st["schedule"])
-        return {"conc": True, "objs": [G.bf3_spec(w, max_comps=2, max_len=70) for _ in range(n)],
+        return {"conc": True, "objs": [G.bf3_spec(w, max_comps=2, max_len=70, allow_many=False) for _ in range(n)],
                 "keys": [k if w.random() < 0.8 else G.session_key_spec(w) for _ in range(n)],
                 "preempt": pre, "choices": ch}
     if w.random() < 0.0004:
